@@ -40,7 +40,9 @@ KERNEL = ("DAKSTDP", "DAKSTDPD", "KSTDP")
 DYADIC_DT = [1.0, 0.5, 0.25, 2.0, 1.0]
 OTHER_DT = [0.3, 1.3, 0.7, 0.1]
 LRS = [1.0, -1.0, 0.5, -0.5, 0.25, -0.25, 0.1, -0.3, 0.0, 2.0]
-TCS = [0.5, 1.0, 2.0, 4.0, 8.0, 20.0, 3.3]
+TCS = [0.5, 1.0, 2.0, 4.0, 8.0, 20.0, 3.3, 0.25]
+SHORT_TCS = [0.1, 0.25, 0.5]
+NEAR = 2.0 ** -10  # dyadic offset below the 1e-3 tolerance stratum
 SIGNALS = [1.0, -1.0, 0.5, -0.5, 2.0, 0.0, 0.3, -1.5]
 SCALES = [1.0, 1.0, 0.5, 2.0, 0.25]
 REDUCE = {"sum": torch.sum, "mean": torch.mean, None: None}
@@ -142,6 +144,15 @@ def _delays(case, P: int, dmax_steps, dt: float) -> np.ndarray:
             out[p] = (r % (4 * dmax_steps + 1)) * dt / 4
         elif mode == "real":
             out[p] = ((r * 0.6180339887) % 1.0) * dmax_steps * dt
+        elif mode == "near":
+            # a hair off the grid: k*dt +- 2**-10 (dyadic, so t_delta = -+2**-10 is decisive)
+            k = r % (dmax_steps + 1)
+            up = (r // 7) % 2 == 0
+            if k == 0:
+                up = True
+            if k == dmax_steps:
+                up = False
+            out[p] = k * dt + (NEAR if up else -NEAR)
         elif mode == "zero":
             out[p] = 0.0
         else:
@@ -154,7 +165,8 @@ def _weights(case, P: int) -> np.ndarray:
     return rng.integers(-8, 9, size=P).astype(np.float64) / 8.0
 
 
-def _regkw(kind: str, hp: dict, inplace: bool, kw_tensor: bool = False, delayed: bool = False) -> dict:
+def _regkw(kind: str, hp: dict, inplace: bool, kw_tensor: bool = False, delayed: bool = False,
+           tol: float = 0.0) -> dict:
     """register_cell keyword arguments that carry the real hyperparameters (per-cell override)."""
     from inferno.functional import exp_stdp_post_kernel, exp_stdp_pre_kernel
 
@@ -169,13 +181,14 @@ def _regkw(kind: str, hp: dict, inplace: bool, kw_tensor: bool = False, delayed:
                    kernel_pre_kwargs=kw(hp["lr_neg"], hp["tc_neg"]), inplace=inplace)
         if kind == "KSTDP":
             out["delayed"] = delayed
+            out["interp_tolerance"] = tol
         return out
     return dict(lr_pos=hp["lr_pos"], lr_neg=hp["lr_neg"], tc_pos=hp["tc_pos"], tc_neg=hp["tc_neg"],
-                inplace=inplace)
+                inplace=inplace, interp_tolerance=tol)
 
 
 def _mk_trainer(kind: str, hp: dict, reduction, inplace: bool, override: bool,
-                kw_tensor: bool = False, delayed: bool = False):
+                kw_tensor: bool = False, delayed: bool = False, tol: float = 0.0):
     """hp = dict(lr_pos, lr_neg, tc_pos, tc_neg) with the meaning of RULE[kind].  With ``override``
     the constructor gets decoy defaults and every cell must be registered with _regkw(...)."""
     from inferno.functional import exp_stdp_post_kernel, exp_stdp_pre_kernel
@@ -192,15 +205,16 @@ def _mk_trainer(kind: str, hp: dict, reduction, inplace: bool, override: bool,
                          kernel_post_kwargs={"learning_rate": 0.123, "time_constant": 7.0},
                          kernel_pre_kwargs={"learning_rate": -0.321, "time_constant": 9.0})
             return cls(**decoy, batch_reduction=red, inplace=not inplace,
-                       **({"delayed": not delayed} if kind == "KSTDP" else {}))
-        real = _regkw(kind, hp, inplace, kw_tensor, delayed)
+                       **({"delayed": not delayed, "interp_tolerance": 0.0 if tol else 0.3}
+                          if kind == "KSTDP" else {}))
+        real = _regkw(kind, hp, inplace, kw_tensor, delayed, tol)
         return cls(**real, batch_reduction=red)
     cls = {"DASTDP": DelayAdjustedSTDP, "DASTDPD": DelayAdjustedSTDPD,
            "DAMSTDP": DelayAdjustedMSTDP, "DAMSTDPD": DelayAdjustedMSTDPD}[kind]
     if override:
         return cls(lr_pos=0.123, lr_neg=-0.321, tc_pos=7.0, tc_neg=9.0, batch_reduction=red,
-                   inplace=not inplace)
-    return cls(**_regkw(kind, hp, inplace), batch_reduction=red)
+                   inplace=not inplace, interp_tolerance=0.0 if tol else 0.3)
+    return cls(**_regkw(kind, hp, inplace, tol=tol), batch_reduction=red)
 
 
 class _Cell:
@@ -221,6 +235,7 @@ class _Cell:
         self.dmax = None if dmax_steps is None else dmax_steps * dt
         self.via = case.get("upd_via", "connection")
         inplace = bool(case.get("inplace", False))
+        tol = float(case.get("itol", 0.0))
         with impl(f"construct {kind} cell"):
             self.conn = _mk_conn(case["conn"], dt, self.dmax, B, inplace)
             self.conn.updater = self.conn.defaultupdater()
@@ -231,9 +246,9 @@ class _Cell:
             if self.dmax is not None and delays is not None:
                 self.conn.delay = torch.tensor(delays.reshape(self.pshape), dtype=dtype)
             if trainer is None:
-                trainer = _mk_trainer(kind, hp, reduction, inplace, override, kw_tensor, delayed)
+                trainer = _mk_trainer(kind, hp, reduction, inplace, override, kw_tensor, delayed, tol)
             self.trainer = trainer
-            regkw = _regkw(kind, hp, inplace, kw_tensor, delayed) if override else {}
+            regkw = _regkw(kind, hp, inplace, kw_tensor, delayed, tol) if override else {}
             self.trainer.register_cell(name, self.layer.cell, **regkw)
 
     # -- driving
@@ -319,6 +334,26 @@ def _subcases(case) -> list[dict]:
         if "hp" in extra:
             sub.update(extra["hp"])
         subs.append(sub)
+    gaps = case.get("gaps")
+    if gaps:
+        # long silences: after step i, n further steps in which no neuron of any cell spikes
+        # (reward / update flag of the gap steps as given); applied to every cell alike
+        out = []
+        for sub in subs:
+            sub = dict(sub)
+            steps = []
+            for i, stp in enumerate(sub["steps"]):
+                steps.append(stp)
+                for gi, n, upd in gaps:
+                    if gi == i:
+                        quiet = {"pre": [0] * len(stp["pre"]), "post": [0] * len(stp["post"]), "update": bool(upd)}
+                        for k in ("signal", "scale"):
+                            if k in stp:
+                                quiet[k] = stp[k]
+                        steps.extend([quiet] * int(n))
+            sub["steps"] = steps
+            out.append(sub)
+        subs = out
     return subs
 
 
@@ -396,6 +431,7 @@ class _FormulaCell:
         self.acc_scale = 0.0
         self.n_c = self.n_a = self.n_z = self.n_amb = self.n_silent = self.n_nz = self.n_upd = 0
         self.n_setd = self.n_dchg = 0
+        self.n_intol_neg = self.n_intol_pos = self.n_old = self.n_old_live = 0
 
     def drive(self, si):
         """Everything up to (excluding) the trainer call of step ``si``."""
@@ -430,7 +466,19 @@ class _FormulaCell:
             ex = exact_p[None, :, None]
             if (valid & ex & ((np.nan_to_num(td, nan=1.0) == 0) != ez)).any() or (valid & ~ex & ez & ~amb_e).any():
                 raise HarnessError("reference model: float64 and exact-rational t_delta == 0 disagree")
-        net, abssum, err = _model_step(kind, hp, self.red_eff, td, band, signal, gscale)
+        # dyadic dt and delay: the implementation's t_delta is exact, no rounding allowance
+        band_eff = np.where(exact_p[None, :, None], 0.0, band)
+        net, abssum, err = _model_step(kind, hp, self.red_eff, td, band_eff, signal, gscale)
+        itol = float(self.sub.get("itol", 0.0))
+        dec = valid & ~amb_e & mask[None, :, None]
+        tdz = np.nan_to_num(td)
+        self.n_intol_neg += int((dec & (tdz < 0) & (tdz >= -itol)).sum())
+        self.n_intol_pos += int((dec & (tdz > 0) & (tdz <= itol)).sum())
+        tau_min = min(hp["tc_pos"], hp["tc_neg"])
+        kp, kq = M.ages(self.ls, pairs)
+        old = dec & (np.minimum(kp, kq) * dt >= 88.0 * tau_min)
+        self.n_old += int(old.sum())
+        self.n_old_live += int((old & (np.abs(tdz) <= 12.0 * tau_min)).sum())
         gmax = (abs(gscale) * float(np.max(np.abs(signal)))) if kind in THREE else 1.0
         self.acc += net
         self.acc_abs += abssum
@@ -533,7 +581,7 @@ def _run_formula(case, kind):
         fc = _FormulaCell(sub, kind, red, red_eff, trainer, "cell" if ci == 0 else f"cell{ci}", ovr)
         trainer = fc.cell.trainer
         cells.append(fc)
-    for si, stp in enumerate(case["steps"]):
+    for si, stp in enumerate(subs[0]["steps"]):
         signal, gscale = stp.get("signal", 1.0), stp.get("scale", 1.0)
         for fc in cells:
             fc.drive(si)
@@ -562,6 +610,18 @@ def _run_formula(case, kind):
         cls.append("delay re-assigned mid-history")
     if tot("n_dchg"):
         cls.append("learned delay changed by update()")
+    if case.get("itol"):
+        cls.append("interp_tolerance>0")
+    if tot("n_intol_neg"):
+        cls.append("t_delta in [-tol,0) decisive")
+    if tot("n_intol_pos"):
+        cls.append("t_delta in (0,tol] decisive")
+    if case.get("gaps"):
+        cls.append("long-gap stratum")
+    if tot("n_old"):
+        cls.append("both last spikes older than 88*tau")
+    if tot("n_old_live"):
+        cls.append("old pair with non-negligible term")
     if multi and kind in THREE:
         cls.append("multi-cell three-factor" + (" (tensor reward)" if any(
             isinstance(s.get("signal"), list) for s in case["steps"]) else ""))
@@ -616,6 +676,7 @@ class _TwinCell:
                       * (self.B if red == "sum" else 1) * max(abs(g), 1e-3))
         self.red = red
         self.n_c = self.n_a = self.n_z = self.n_nz = self.n_silent = self.n_mixed = self.n_setd = 0
+        self.n_intol = self.n_old_live = 0
 
     def drive(self, si):
         stp = self.sub["steps"][si]
@@ -641,6 +702,13 @@ class _TwinCell:
         c_, a_, z_ = M.branch_counts(np.where(mask[None, :, None], td, np.nan))
         self.n_c, self.n_a, self.n_z = self.n_c + c_, self.n_a + a_, self.n_z + z_
         self.n_mixed += _mixed_elements(td, mask, self.hpk["lr_pos"], self.hpk["lr_neg"])
+        itol = float(self.sub.get("itol", 0.0))
+        tdz = np.nan_to_num(td)
+        self.n_intol += int((valid & mask[None, :, None] & (tdz != 0) & (np.abs(tdz) <= itol)).sum())
+        kp, kq = M.ages(self.ls, self.pairs)
+        tau_min = min(self.hpk["tc_pos"], self.hpk["tc_neg"])
+        self.n_old_live += int((valid & mask[None, :, None] & (np.minimum(kp, kq) * self.dt >= 88.0 * tau_min)
+                                & (np.abs(tdz) <= 12.0 * tau_min)).sum())
         _, abssum, _ = _model_step("DAKSTDP", self.hpk, self.red, td, band, 1.0, 1.0)
         (pa, na), (pb, nb) = a.parts(), b.parts()
         ga, gb = pa - na, pb - nb
@@ -706,7 +774,7 @@ def _run_twins(case, kind_a: str, kind_b: str, zero: bool) -> dict:
                        bool(case.get("override", False) or own), bool(case.get("override_b", False) or own))
         tr_a, tr_b = tc.a.trainer, tc.b.trainer
         cells.append(tc)
-    for si in range(len(case["steps"])):
+    for si in range(len(subs[0]["steps"])):
         for tc in cells:
             tc.drive(si)
         cells[0].a.train(signal, gscale)
@@ -733,6 +801,14 @@ def _run_twins(case, kind_a: str, kind_b: str, zero: bool) -> dict:
         cls.append("opposite-sign learning rates")
     if tot("n_setd"):
         cls.append("delay re-assigned mid-history")
+    if case.get("itol"):
+        cls.append("interp_tolerance>0")
+    if tot("n_intol"):
+        cls.append("0<|t_delta|<=tol")
+    if case.get("gaps"):
+        cls.append("long-gap stratum")
+    if tot("n_old_live"):
+        cls.append("old pair with non-negligible term")
     if zero:
         cls.append(f"kstdp:delayed={case.get('delayed', False)},dmax_b={case.get('dmax_steps_b', case['dmax_steps'])}")
     nt = bool(tot("n_c") and tot("n_a") and tot("n_nz") and tot("n_silent")) and all(tc.n_nz for tc in cells)
@@ -784,12 +860,12 @@ def _n_of(conn):
 
 
 @st.composite
-def _history(draw, n_pre, n_post, B, tmax, three, vector_ok, T=None, setd=False):
+def _history(draw, n_pre, n_post, B, tmax, three, vector_ok, T=None, setd=False, busy=False):
     if T is None:
         T = draw(st.integers(3, tmax))
-    sparse_pre = draw(st.booleans())
-    sparse_post = draw(st.booleans())
-    late_post = draw(st.integers(0, 3))  # steps at the start in which no post neuron fires
+    sparse_pre = False if busy else draw(st.booleans())
+    sparse_post = False if busy else draw(st.booleans())
+    late_post = draw(st.integers(0, 1 if busy else 3))  # steps at the start in which no post neuron fires
     steps = []
 
     def mask(n, sparse):
@@ -811,17 +887,29 @@ def _history(draw, n_pre, n_post, B, tmax, three, vector_ok, T=None, setd=False)
         if setd and t > 0 and draw(st.integers(0, 5)) == 0:
             # the connection's delay parameter is re-bound (connection.delay = tensor) before this step
             stp["setd"] = draw(st.lists(st.integers(0, 48), min_size=1, max_size=6))
-            stp["setd_mode"] = draw(st.sampled_from(["grid", "grid", "quarter", "real"]))
+            stp["setd_mode"] = draw(st.sampled_from(["grid", "grid", "quarter", "real", "near"]))
         steps.append(stp)
     return steps
 
 
-def _delay_fields(draw, zero_delays):
+def _delay_fields(draw, zero_delays, itol=0.0):
     if zero_delays:
         return {"dmax_steps": draw(st.sampled_from([0, 0, 1, 3])), "dmode": "zero", "draws": [0]}
-    return {"dmax_steps": draw(st.sampled_from([0, 1, 2, 3, 3, 4, 6])),
-            "dmode": draw(st.sampled_from(["grid", "grid", "grid", "quarter", "real", "zero"])),
+    modes = ["grid", "grid", "grid", "quarter", "real", "zero", "near"]
+    if itol >= 1e-3:
+        # fractional delays that put t_delta strictly inside [-tol, 0) and (0, tol]
+        modes = ["quarter", "quarter", "near", "near", "grid", "real"]
+    return {"dmax_steps": draw(st.sampled_from([0, 1, 2, 3, 3, 4, 6] if itol < 1e-3 else [1, 2, 3, 3, 4, 6])),
+            "dmode": draw(st.sampled_from(modes)),
             "draws": draw(st.lists(st.integers(0, 48), min_size=1, max_size=8))}
+
+
+def _gaps(draw, tier, T):
+    """1-2 long silences [after step i, n silent steps, update during the silence]."""
+    lo, hi = (9, 30) if tier == "quick" else (20, 200)
+    k = draw(st.sampled_from([1, 1, 2]))
+    return [[draw(st.integers(1, T - 1)), draw(st.integers(lo, hi)), draw(st.integers(0, 3)) > 0]
+            for _ in range(k)]
 
 
 def _lrs(draw, opposite_bias=False):
@@ -849,7 +937,15 @@ def _common(draw, tier, zero_delays=False, conv_bias=False, opposite_bias=False)
         "wseed": draw(st.integers(0, 1000)),
         "upd_via": draw(st.sampled_from(["connection", "connection", "layer"])),
     }
-    case.update(_delay_fields(draw, zero_delays))
+    # interp_tolerance of the trainer: only governs delayed monitor reads, never the branch rule
+    case["itol"] = draw(st.sampled_from([0.0, 0.0, 1e-6, 1e-3, 0.25 * dt, 0.4 * dt]))
+    case.update(_delay_fields(draw, zero_delays, case["itol"]))
+    # long-silence stratum: dt = 1 ms, time constants far below the length of the silences
+    case["longgap"] = draw(st.integers(0, 7)) == 0
+    if case["longgap"]:
+        case["dt"] = 1.0
+        case["tc_pos"], case["tc_neg"] = draw(st.sampled_from(SHORT_TCS)), draw(st.sampled_from(SHORT_TCS))
+        case["itol"] = draw(st.sampled_from([0.0, 0.25, 0.4]))
     return case
 
 
@@ -861,7 +957,7 @@ def _more_cells(draw, tier, case, zero_delays, T, setd, kstdp=False):
     for _ in range(k):
         conn = draw(_conn_strategy(tier))
         extra = {"conn": conn, "wseed": draw(st.integers(0, 1000))}
-        extra.update(_delay_fields(draw, zero_delays))
+        extra.update(_delay_fields(draw, zero_delays, case.get("itol", 0.0)))
         if kstdp:
             extra["dmax_steps"] = draw(st.sampled_from([None, 0, 2]))
         if draw(st.booleans()):
@@ -888,7 +984,10 @@ def formula_case(draw, tier="quick"):
     tmax = 12 if tier == "quick" else 36
     vector_ok = three and case["reduction"] in (None, "sum")
     setd = kind != "KSTDP"
-    case["steps"] = draw(_history(n_pre, n_post, case["B"], tmax, three, vector_ok, setd=setd))
+    lg = case.pop("longgap")
+    case["steps"] = draw(_history(n_pre, n_post, case["B"], 6 if lg else tmax, three, vector_ok, setd=setd, busy=lg))
+    if lg:
+        case["gaps"] = _gaps(draw, tier, len(case["steps"]))
     more = _more_cells(draw, tier, case, kind == "KSTDP", len(case["steps"]), setd, kstdp=(kind == "KSTDP"))
     if more:
         case["more"] = more
@@ -906,7 +1005,10 @@ def twin_case(draw, tier="quick"):
         case["scale"] = draw(st.sampled_from(SCALES))
     n_pre, n_post = _n_of(case["conn"])
     tmax = 10 if tier == "quick" else 30
-    case["steps"] = draw(_history(n_pre, n_post, case["B"], tmax, False, False, setd=True))
+    lg = case.pop("longgap")
+    case["steps"] = draw(_history(n_pre, n_post, case["B"], 6 if lg else tmax, False, False, setd=True, busy=lg))
+    if lg:
+        case["gaps"] = _gaps(draw, tier, len(case["steps"]))
     more = _more_cells(draw, tier, case, False, len(case["steps"]), True)
     if more:
         case["more"] = more
@@ -927,7 +1029,10 @@ def zero_case(draw, tier="quick"):
         case["scale"] = draw(st.sampled_from(SCALES))
     n_pre, n_post = _n_of(case["conn"])
     tmax = 10 if tier == "quick" else 30
-    case["steps"] = draw(_history(n_pre, n_post, case["B"], tmax, False, False))
+    lg = case.pop("longgap")
+    case["steps"] = draw(_history(n_pre, n_post, case["B"], 6 if lg else tmax, False, False, busy=lg))
+    if lg:
+        case["gaps"] = _gaps(draw, tier, len(case["steps"]))
     more = _more_cells(draw, tier, case, True, len(case["steps"]), False)
     if more:
         case["more"] = more
@@ -1017,6 +1122,12 @@ ASSUMPTIONS = [
     "every update() (on implementation and reference alike) and re-bound with connection.delay = tensor; "
     "in 1/6 of the later steps the delay parameter of any delay-adjusted cell is re-assigned to fresh values; "
     "updates go through connection.update() or layer.update()",
+    "interp_tolerance in {0, 1e-6, 1e-3, 0.25 dt, 0.4 dt} on the trainers that accept it (the two- and "
+    "three-factor delay-adjusted rules and KernelSTDP); the branch is asserted by the exact sign of "
+    "t_delta (dyadic dt and delays: quarter-step and k*dt +- 2**-10 delays), the band covers float "
+    "rounding only",
+    "long-silence stratum (1/8 of the cases): dt = 1, tau in {0.1, 0.25, 0.5}, 1-2 silences of 9-30 "
+    "(quick) / 20-200 (thorough) steps; every step of the silence is compared",
     "cells that share a trainer share batch size, step time and the reward signal; connection, delays, "
     "weights, history and (half of the time) hyperparameters are their own",
     "pairs with |t_delta| inside a float-rounding band (non-dyadic dt or delay) are not judged "
